@@ -138,4 +138,212 @@ theorem blocks_length {start : Time} {a : List (Kw κ)} {bs : List (Block κ)}
   subst h
   simp [St.all, hl]
 
+/-! ### restarted runs -/
+
+theorem runEvsR_append (cfg : RCfg) (wl : κ → Bool) (s : RSt κ) (a b : List (Ev κ)) :
+    runEvsR cfg wl s (a ++ b) = match runEvsR cfg wl s a with
+      | .error e => .error e
+      | .ok s' => runEvsR cfg wl s' b := by
+  induction a generalizing s with
+  | nil => simp [runEvsR]
+  | cons e r ih =>
+    simp only [List.cons_append, runEvsR]
+    cases h : stepEvR cfg wl s e with
+    | error x => simp
+    | ok s' => simp only []; exact ih s'
+
+/-- Without a restart the restarted-run model is the plain one. -/
+def toR (s : St κ) : RSt κ := { closed := s.closed, cur := s.cur, last := s.last, skip := false }
+
+theorem stepEvR_toR (cfg : RCfg) (wl : κ → Bool) (s : St κ) (e : Ev κ) :
+    stepEvR cfg wl (toR s) e = (stepEv s e).map toR := by
+  cases e with
+  | kw k => rfl
+  | date d =>
+    simp only [stepEvR, stepEv, toR]
+    by_cases h : d.seconds < s.last / 1000
+    · simp only [h, if_true]; rfl
+    · simp only [h, if_false]; rfl
+  | step v =>
+    simp only [stepEvR, stepEv, toR]
+    by_cases h : v.neg = true
+    · simp only [h, if_true]; rfl
+    · simp only [h]; rfl
+
+theorem runEvsR_toR (cfg : RCfg) (wl : κ → Bool) (s : St κ) (evs : List (Ev κ)) :
+    runEvsR cfg wl (toR s) evs = (runEvs s evs).map toR := by
+  induction evs generalizing s with
+  | nil => rfl
+  | cons e r ih =>
+    simp only [runEvsR, runEvs, stepEvR_toR]
+    cases stepEv s e with
+    | error x => rfl
+    | ok s' => exact ih s'
+
+theorem rblocks_norestart (wl : κ → Bool) (start : Time) (t : Time) (kws : List (Kw κ)) :
+    rblocks { rstep := 0, rtime := t, skiprest := false } wl start kws = blocks start kws := by
+  unfold rblocks blocks
+  have : (rinit { rstep := 0, rtime := t, skiprest := false } start : RSt κ) = toR (initSt start) := rfl
+  rw [this, runEvsR_toR]
+  cases runEvs (initSt start) (flatten kws) with
+  | error e => rfl
+  | ok s => rfl
+
+/-- `rst_skip` never becomes true again. -/
+theorem stepEvR_skip {cfg : RCfg} {wl : κ → Bool} {s s' : RSt κ} {e : Ev κ} (h : stepEvR cfg wl s e = .ok s')
+    (hs : s.skip = false) : s'.skip = false := by
+  cases e with
+  | kw k => simp only [stepEvR, hs, Bool.false_eq_true, if_false, Except.ok.injEq] at h; rw [← h]; try exact hs
+  | date d =>
+    simp only [stepEvR, addBlockR, hs, Bool.false_eq_true, if_false] at h
+    by_cases hc : d.seconds < s.last / 1000
+    · simp [hc] at h
+    · simp only [hc, if_false, Except.ok.injEq] at h; rw [← h]; try exact hs
+  | step v =>
+    simp only [stepEvR, addBlockR, hs, Bool.false_eq_true, if_false] at h
+    by_cases hc : v.neg = true
+    · simp [hc] at h
+    · simp only [hc, Bool.false_eq_true, if_false, Except.ok.injEq] at h; rw [← h]; try exact hs
+
+theorem runEvsR_skip {cfg : RCfg} {wl : κ → Bool} {s s' : RSt κ} {evs : List (Ev κ)} (h : runEvsR cfg wl s evs = .ok s')
+    (hs : s.skip = false) : s'.skip = false := by
+  induction evs generalizing s with
+  | nil => simp only [runEvsR, Except.ok.injEq] at h; rw [← h]; exact hs
+  | cons e r ih =>
+    simp only [runEvsR] at h
+    cases h1 : stepEvR cfg wl s e with
+    | error x => rw [h1] at h; cases h
+    | ok s1 => rw [h1] at h; exact ih h (stepEvR_skip h1 hs)
+
+/-- After the skipped part the closed blocks only grow at the end. -/
+theorem stepEvR_closed {cfg : RCfg} {wl : κ → Bool} {s s' : RSt κ} {e : Ev κ} (h : stepEvR cfg wl s e = .ok s')
+    (hs : s.skip = false) : ∃ x, s'.closed = s.closed ++ x := by
+  cases e with
+  | kw k => simp only [stepEvR, hs, Bool.false_eq_true, if_false, Except.ok.injEq] at h; rw [← h]; exact ⟨[], by simp⟩
+  | date d =>
+    simp only [stepEvR, addBlockR, hs, Bool.false_eq_true, if_false] at h
+    split at h
+    · cases h
+    · simp only [Except.ok.injEq] at h; rw [← h]; exact ⟨_, rfl⟩
+  | step v =>
+    simp only [stepEvR, addBlockR, hs, Bool.false_eq_true, if_false] at h
+    split at h
+    · cases h
+    · simp only [Except.ok.injEq] at h; rw [← h]; exact ⟨_, rfl⟩
+
+theorem runEvsR_closed {cfg : RCfg} {wl : κ → Bool} {s s' : RSt κ} {evs : List (Ev κ)} (h : runEvsR cfg wl s evs = .ok s')
+    (hs : s.skip = false) : ∃ x, s'.closed = s.closed ++ x := by
+  induction evs generalizing s with
+  | nil => simp only [runEvsR, Except.ok.injEq] at h; rw [← h]; exact ⟨[], by simp⟩
+  | cons e r ih =>
+    simp only [runEvsR] at h
+    cases h1 : stepEvR cfg wl s e with
+    | error x => rw [h1] at h; cases h
+    | ok s1 =>
+      rw [h1] at h
+      obtain ⟨x1, hx1⟩ := stepEvR_closed h1 hs
+      obtain ⟨x2, hx2⟩ := ih h (stepEvR_skip h1 hs)
+      exact ⟨x1 ++ x2, by rw [hx2, hx1, List.append_assoc]⟩
+
+/-- Restarted runs: once the skipped part is over (`s1.skip = false` after reading `a`), every
+block closed so far is final, whatever follows. -/
+theorem rblocks_split {cfg : RCfg} {wl : κ → Bool} {start : Time} {a b : List (Kw κ)} {bs : List (Block κ)} {s1 : RSt κ}
+    (ha : runEvsR cfg wl (rinit cfg start) (flatten a) = .ok s1) (hs : s1.skip = false)
+    (h : rblocks cfg wl start (a ++ b) = .ok bs) : bs.take s1.closed.length = s1.closed := by
+  unfold rblocks at h
+  rw [flatten_append, runEvsR_append, ha] at h
+  simp only [] at h
+  cases h2 : runEvsR cfg wl s1 (flatten b) with
+  | error e => rw [h2] at h; cases h
+  | ok s2 =>
+    rw [h2] at h
+    simp only [Except.ok.injEq] at h
+    obtain ⟨x, hx⟩ := runEvsR_closed h2 hs
+    rw [← h, RSt.all, hx, List.append_assoc, List.take_left]
+
+/-- `m_blocks[0].push_back` for a list of keywords. -/
+def addFirst (bs : List (Block κ)) (ks : List κ) : List (Block κ) :=
+  match bs with
+  | [] => []
+  | b :: r => { b with kws := b.kws ++ ks } :: r
+
+theorem addFirst_nil (bs : List (Block κ)) : addFirst bs [] = bs := by
+  cases bs with
+  | nil => rfl
+  | cons b r => simp [addFirst]
+
+theorem addFirst_addFirst (bs : List (Block κ)) (a b : List κ) : addFirst (addFirst bs a) b = addFirst bs (a ++ b) := by
+  cases bs with
+  | nil => rfl
+  | cons x r => simp [addFirst, List.append_assoc]
+
+theorem pushFirst_all (s : RSt κ) (k : κ) : (pushFirst s k).all = addFirst s.all [k] := by
+  unfold pushFirst RSt.all
+  cases hc : s.closed with
+  | nil => simp [addFirst]
+  | cons b r => simp [addFirst]
+
+/-- The white-listed keywords among a list of events. -/
+def whitelisted (wl : κ → Bool) (evs : List (Ev κ)) : List κ :=
+  evs.filterMap fun e => match e with
+    | .kw k => if wl k then some k else none
+    | _ => none
+
+/-- While the skipped part lasts (`rst_skip` still true at the end), nothing happens to the block
+list except that block 0 collects the white-listed keywords, in order. -/
+theorem runEvsR_skip_phase {cfg : RCfg} {wl : κ → Bool} {s s' : RSt κ} {evs : List (Ev κ)}
+    (h : runEvsR cfg wl s evs = .ok s') (hs' : s'.skip = true) : s'.all = addFirst s.all (whitelisted wl evs) := by
+  induction evs generalizing s with
+  | nil => simp only [runEvsR, Except.ok.injEq] at h; rw [← h]; simp [whitelisted, addFirst_nil]
+  | cons e r ih =>
+    simp only [runEvsR] at h
+    cases h1 : stepEvR cfg wl s e with
+    | error x => rw [h1] at h; cases h
+    | ok s1 =>
+      rw [h1] at h
+      have hs1 : s1.skip = true := by
+        cases hk : s1.skip with
+        | true => rfl
+        | false => have := runEvsR_skip h hk; rw [this] at hs'; cases hs'
+      have hs : s.skip = true := by
+        cases hk : s.skip with
+        | true => rfl
+        | false => have := stepEvR_skip h1 hk; rw [this] at hs1; cases hs1
+      rw [ih h]
+      have hw : whitelisted wl (e :: r) = whitelisted wl [e] ++ whitelisted wl r := by
+        simp [whitelisted, List.filterMap_cons]
+        cases e <;> simp
+        split <;> simp
+      rw [hw, ← addFirst_addFirst]
+      congr 1
+      cases e with
+      | kw k =>
+        simp only [stepEvR, hs, if_true, Except.ok.injEq] at h1
+        rw [← h1]
+        by_cases hk : wl k = true
+        · simp [whitelisted, hk, pushFirst_all]
+        · simp [whitelisted, hk, addFirst_nil]
+      | date d =>
+        simp only [stepEvR, addBlockR, hs, if_true] at h1
+        split at h1
+        · cases h1
+        · split at h1
+          · simp only [Except.ok.injEq] at h1; rw [← h1]; simp [whitelisted, addFirst_nil, RSt.all]
+          · split at h1
+            · simp only [Except.ok.injEq] at h1; rw [← h1] at hs1; cases hs1
+            · split at h1
+              · cases h1
+              · simp only [Except.ok.injEq] at h1; rw [← h1] at hs1; cases hs1
+      | step v =>
+        simp only [stepEvR, addBlockR, hs, if_true] at h1
+        split at h1
+        · cases h1
+        · split at h1
+          · simp only [Except.ok.injEq] at h1; rw [← h1]; simp [whitelisted, addFirst_nil, RSt.all]
+          · split at h1
+            · simp only [Except.ok.injEq] at h1; rw [← h1] at hs1; cases hs1
+            · split at h1
+              · cases h1
+              · simp only [Except.ok.injEq] at h1; rw [← h1] at hs1; cases hs1
+
 end OpmVerif.Sched
